@@ -27,7 +27,9 @@ def prog_for(pre, chunks):
 
 def rand_cfg(rng, kind, small=True, rv=None, tf=None, fill=False, inp=None):
     """a random parameterisation of one kind (periods 2..6 keep the exact arithmetic exact)"""
-    P = lambda lo=2, hi=5: rng.randint(lo, hi)  # noqa: E731
+    def P(lo=2, hi=5):
+        # mostly small periods (exact arithmetic stays exact), now and then a larger or odd one
+        return rng.choice([7, 9, 11]) if rng.random() < 0.12 else rng.randint(lo, hi)
     kw = {"rv": rv if rv is not None else 4, "timeframe": tf, "fill": fill}
     if kind in ("SMA", "EMA", "RMA", "WMA"):
         kw.update(p=P(2, 6), inp=inp or rng.choice(["close", "close", "open", "high", "low", "volume"]))
@@ -36,7 +38,7 @@ def rand_cfg(rng, kind, small=True, rv=None, tf=None, fill=False, inp=None):
     elif kind == "VWMA":
         kw.update(p=P(2, 5))
     elif kind == "HMA":
-        kw.update(p=rng.choice([4, 4, 5, 6, 9]), inp=inp or "close")
+        kw.update(p=rng.choice([3, 4, 5, 6, 7, 9, 10, 11]), inp=inp or "close")
     elif kind in ("TR", "HLA", "OBV"):
         pass
     elif kind in ("ATR", "DONCHIAN", "HL", "AROON", "VWAP"):
@@ -108,7 +110,7 @@ def fam_kinds(rng, pid, kinds, count, n=(12, 20), styles=STYLES, twins=("batch",
         tf = pick_tf(rng) if rng.random() < tf_share else None
         fill = bool(tf) and rng.random() < 0.4
         cfg = rand_cfg(rng, kind, rv=rng.choice(rvs), tf=tf, fill=fill)
-        nn = rng.randint(*n) + (10 if tf else 0)
+        nn = rng.randint(*n) + (10 if tf else 0) + (2 * max(cfg.p, cfg.p2, cfg.p3) if max(cfg.p, cfg.p2, cfg.p3) > 6 else 0)
         style = rng.choice(styles)
         out.append(ind_scenario(rng, f"{pid}/{kind}/{t}", "kinds", cfg, nn, style, twins, tf=tf,
                                 extra=rng.randint(1, 5) if "longer" in twins else 0,
@@ -647,14 +649,25 @@ def fam_work(rng, pid, count):
         hexobj = t % 5 == 4
         hist = rng.randint(26, 34)
         n = hist + 6
-        if hexobj:
+        style = "mixed"
+        if t % 7 == 6:
+            # readings that are legitimately None long after warm-up (the short side of a Supertrend
+            # in an up-trend and anything computed from it): they must not be recomputed either
+            st_cfg = IndCfg("Supertrend", p=rng.choice([2, 3]), mult=rng.choice([2.0, 3.0]))
+            live = st_cfg.build(standalone=False).name
+            side, style = rng.choice([(".short", "up"), (".long", "down")])
+            cfgs = [st_cfg, IndCfg("Amorph", fn=rng.choice(["highest", "lowest", "value_range", "rising"]),
+                                   inp=live + side, p=rng.randint(2, 5))]
+            sc = {"id": f"{pid}/none/{t}", "obj": "hex", "inds": cfgs, "hex": {}, "member_forms": ["obj"] * len(cfgs)}
+            tf = None
+        elif hexobj:
             cfgs = _uniq([rand_cfg(rng, k) for k in rng.sample(kinds, 4)])
             sc = {"id": f"{pid}/hex/{t}", "obj": "hex", "inds": cfgs, "hex": {}, "member_forms": ["obj"] * len(cfgs)}
         else:
             cfg = rand_cfg(rng, kinds[t % len(kinds)], tf=tf)
             sc = {"id": f"{pid}/{cfg.kind}/{t}", "obj": "ind", "inds": [cfg]}
         regular = tf_regular(rng, tf) if tf else None
-        sc.update({"fam": "work", "stream": make_stream(rng, n, "mixed", tf=tf, regular=regular), "twins": [],
+        sc.update({"fam": "work", "stream": make_stream(rng, n, style, tf=tf, regular=regular), "twins": [],
                    "work": True,
                    "prog": [("new", hist), ("calculate", "")] + [("append", hist + i, hist + i) for i in range(1, 7)],
                    "clause_props": {"work": ["C07"], "exc": ["C07"]}})
